@@ -58,6 +58,14 @@ def run(ctx):
     for (cls, name, m, cid, fixed) in C.bases(ctx, 0, 0, ctx.n(20, 200), 0, 0, 0, 0):
         m2, order, kind = C.variant_of(m, rng.choice(C.PERM_KINDS), rng)
         spool.append(('%s renumbered (%s)' % (name, kind), m2, cid))
+    # gen_cases takes the first n usable entries: put the rare classes (large, flat, error-path) first, then shuffle the rest, so that
+    # every class reaches the model tie in both tiers
+    rare = [x for x in xpool if '[large]' in x[0] or '[flat' in x[0] or '[error' in x[0]]
+    rest = [x for x in xpool if x not in rare]
+    rng.shuffle(rare)
+    rng.shuffle(rest)
+    xpool = rare[:8] + rest + rare[8:]
+    ctx.coverage['input_distribution']['tie_rare_classes_first'] = [x[0][:60] for x in rare[:8]]
     cases += m1lib.gen_cases(ctx, ctx.n(16, 250), pool=xpool)
     cases += m1lib.gen_cases(ctx, ctx.n(10, 150), pool=spool,
                              opt_filter=lambda o: dict(o, stereo=True, level=max(1, o['level'] or 2), mult=max(o['mult'], 1.5), incl=True))
